@@ -113,6 +113,28 @@ theorem rerunIn_keeps (e : Nat) (w : Int) : ∀ (t : RState) (st : St), e ∈ ef
     · exact Or.inl (ihr st h)
     · exact Or.inr (ihrest _ h)
   | rowNil => intro st h; simp [effsOf] at h
+  | errb e' m s fb kid ih =>
+    intro st h
+    simp only [effsOf, List.mem_cons] at h
+    simp only [rerunIn]
+    split
+    · next he => subst he; split <;> split <;> simp [effsOf]
+    · next he =>
+      rcases h with h | h
+      · exact absurd h.symm he
+      · simp only [effsOf, List.mem_cons, underHook]; exact Or.inr (ih _ h)
+  | res e' c x n last hook =>
+    intro st h
+    simp only [rerunIn]
+    split
+    · next he => subst he; split <;> simp [effsOf]
+    · exact h
+  | hooked hk inner ih =>
+    intro st h
+    simp only [effsOf] at h
+    simp only [rerunIn, effsOf, underHook]
+    exact ih _ h
+  | errTok s => intro st h; simp [effsOf] at h
 
 /-- effects other than the acting one keep their `EffOK` -/
 theorem Good.acts {K : Nat} {st : St} {v : View} {t : RState} (hg : Good K st v t) (hi : RInv K st) {e : Nat}
@@ -521,10 +543,11 @@ theorem dropAll_append (s : St) (a b : List (Nat × Option RState)) :
 
 /-- the trees the zombies hold contain no component-local state (true of every state of a view of the
 theorems' class) -/
-def NoLoc (zs : List (Nat × Option RState)) : Prop := ∀ z ∈ zs, ∀ t, z.2 = some t → t.locals = []
+def NoLoc (zs : List (Nat × Option RState)) : Prop :=
+  ∀ z ∈ zs, ∀ t, z.2 = some t → t.locals = [] ∧ t.plain = true
 
 theorem release_fold (mine : List (Nat × Option RState)) : NoLoc mine → ∀ (s : St),
-    mine.foldl (fun st z => match z.2 with | some t => dropState st t | none => st) s =
+    mine.foldl (fun st z => match z.2 with | some t => dropState (clearTok st t) t | none => st) s =
       dropAll s (mine.flatMap heldOf) := by
   induction mine with
   | nil => intro _ s; simp [dropAll]
@@ -535,7 +558,8 @@ theorem release_fold (mine : List (Nat × Option RState)) : NoLoc mine → ∀ (
     congr 1
     cases hz : z.2 with
     | none => simp [heldOf, hz, dropAll]
-    | some t => simp [heldOf, hz, dropState_eq (hl z (by simp) t hz)]
+    | some t =>
+      simp [heldOf, hz, dropState_eq (hl z (by simp) t hz).1, clearTok_plain _ (hl z (by simp) t hz).2]
 
 theorem releaseZombie_eq (st : St) (e : Nat) (hl : NoLoc st.zombies) :
     releaseZombie st e =
@@ -545,7 +569,7 @@ theorem releaseZombie_eq (st : St) (e : Nat) (hl : NoLoc st.zombies) :
   exact release_fold _ (fun z hz => hl z (List.mem_filter.1 hz).1) _
 
 theorem InvC.noLoc {K : Nat} {v : View} {st : St} (h : InvC K v st) : NoLoc st.zombies :=
-  fun z hz t ht => GoodP.locals_nil _ t (h.zok z hz t ht).good
+  fun z hz t ht => ⟨GoodP.locals_nil _ t (h.zok z hz t ht).good, GoodP.plain _ t (h.zok z hz t ht).good⟩
 
 theorem zEffs_heldOf (l : List (Nat × Option RState)) :
     zEffs (l.flatMap heldOf) = l.flatMap fun z => optEffs z.2 := by
